@@ -13,6 +13,7 @@ the theorems of Props/C01 apply to it.
   pipe setup <r> <m> <c|->             SETUP of media m; c: first id of an explicit `interleaved=c-(c+1)`,
                                        `-`: the server picks the pair → ch <channel> | no (refused: 400)
   pipe play <r>                        → ok | no
+  pipe replay <r>                      a PLAY while the reader is already playing → ok (nothing changed) | changed
   pipe write <m> <pt> <seq> <ts> <mk> <ssrc> <payload> <outs>
         outs: per reader `-` not fanned out, `a` no error, `f` queue-full error   → the model's string
         `?` (both directions): the reader's own PAUSE is being processed on the server — the push goes
@@ -165,6 +166,16 @@ def mk : IO Handler := do
         let d' := d.ev (.ctl r .play)
         ref.set d'
         return if (d.rd r).status != .playing && (d'.rd r).status == .playing then "ok" else "no"
+      | none => return "bad-op"
+    | ["replay", r] =>
+      match r.toNat? with
+      | some r =>
+        let x := d.rd r
+        let d' := d.ev (.ctl r .play)
+        ref.set d'
+        let y := d'.rd r
+        return if x.status == .playing && y.status == .playing && y.queue.length == x.queue.length
+                  && y.wire.length == x.wire.length && y.cbs.length == x.cbs.length then "ok" else "changed"
       | none => return "bad-op"
     | ["write", m, pt, sq, ts, mk, ssrc, payload, outs] =>
       match m.toNat?, pt.toNat?, sq.toNat?, ts.toNat?, ssrc.toNat?, unhex payload with
